@@ -141,6 +141,22 @@ Theorem C07_xml_err_nil_only_complete : forall objs h,
 Proof. exact xml_err_nil_only_complete. Qed.
 Print Assumptions C07_xml_err_nil_only_complete.
 
+(* "without consuming the rest of the input" for the XML scanner, at token granularity: however a
+   cancellation from another goroutine interleaves with the Scan loop (the context is tested before
+   every token), at most one further token is read after the context is cancelled *)
+Theorem C07_xml_bounded_read_ahead : forall sched toks, xt_tac (fst (xtrun false sched (xtinit toks))) <= 1.
+Proof. exact xml_bounded_read_ahead. Qed.
+Print Assumptions C07_xml_bounded_read_ahead.
+
+(* FALSE for a scanner that tests the context once per Scan call: it reads on through a run of
+   tokens that yield no object to the next object or the end of input (5 tokens here, then EOF is
+   recorded and Err() is nil) *)
+Theorem C07_xml_bounded_read_ahead_percall_refuted :
+  xt_tac (fst (xtrun true xt_witness_sched (xtinit xt_witness_toks))) = 5 /\
+  snd (xtrun true xt_witness_sched (xtinit xt_witness_toks)) = [OScan false 0%Z; OErr 0%Z].
+Proof. exact xml_bounded_read_ahead_percall_refuted. Qed.
+Print Assumptions C07_xml_bounded_read_ahead_percall_refuted.
+
 (* non-vacuity: a reachable cancelled state of the repaired model with one read after the cancel *)
 Example C07_witness_rac_now : rac_and = 0 /\ rac_or = 6.
 Proof. vm_compute. split; reflexivity. Qed.
